@@ -43,7 +43,7 @@ class Contract(object):
                  ghost=None, notes="", trusted=False, unfold=None, assume_post=(), raises_frame="havoc",
                  exc_ensures=None, self_class=None, kwargs=None, defaults=None, statics=None, max_paths=4000,
                  old_names=None, qualkey=None, result_alias=None, on_abandon=(), upstream_raises=False, at_call=None, closure=None,
-                 vararg=None, kwarg=None):
+                 vararg=None, kwarg=None, local_types=None):
         self.file, self.qual, self.props = file, qual, list(props)
         self.params = dict(params or {})
         self.result = result
@@ -79,6 +79,9 @@ class Contract(object):
         self.on_abandon = list(on_abandon)       # clauses that hold when the generator is abandoned at a yield
         self.upstream_raises = upstream_raises   # explore: pulling from the input flow raises
         self.result_alias = result_alias     # the function returns this parameter itself (same object)
+        # element type of a local that starts as an empty list display `name = []` and is extended in a loop of symbolic
+        # length: name -> "Lst[T]" (an empty list is an empty list whatever T; a value that does not fit T is out-of-subset)
+        self.local_types = dict(local_types or {})
         self.vararg, self.kwarg = vararg, kwarg   # names of the *args / **kwargs parameters (typed Tuple[...] / KwDict[k:T,...])
 
     @property
@@ -299,7 +302,8 @@ class World(object):
 
     def module_attr(self, modname, attr, interp):
         """static resolution of `<module>.<attr>`"""
-        if self.is_exc(attr) and (modname.startswith("lena") or modname in ("exceptions",)):
+        if self.is_exc(attr) and (modname.startswith("lena") or modname in ("exceptions",)
+                                  or (modname == "decimal" and attr in ("Inexact", "DecimalException"))):
             return Fun("exc", name=attr)
         sub = self.module_file(modname + "." + attr)
         if sub is not None:
